@@ -10,6 +10,7 @@
 (*   watch protocol     WInit WList                      LIST  -> Init, InitApply*, InitDone *)
 (*                      WSend WRecv                      ADDED/MODIFIED -> Apply, DELETED -> Delete *)
 (*                      Bookmark                         BOOKMARK: only the resume point moves *)
+(*                      WNoise                           ERROR event (not 410): nothing changes *)
 (*                      WDrop                            connection lost: re-watch from the last seen resourceVersion *)
 (*                      WExpire                          410 Gone: the watcher starts over with a LIST *)
 (*   adapter            HInit HInitApply HInitDone HApply HDelete  one action per watcher::Event *)
@@ -149,9 +150,21 @@ WRecv ==
               /\ wire' = Tail(wire) /\ UNCHANGED <<wpc, conn, sent>>
          [] ev.t = "BOOKMARK" ->
               /\ crv' = ev.rv /\ wire' = Tail(wire) /\ UNCHANGED <<q, wpc, conn, sent>>
+         [] ev.t = "NOISE" ->      \* ERROR event, code other than 410: reported, watching goes on
+              /\ wire' = Tail(wire) /\ UNCHANGED <<q, crv, wpc, conn, sent>>
          [] ev.t = "ERROR" ->      \* code 410: desynchronised, start over
               /\ wpc' = "Empty" /\ wire' = <<>> /\ UNCHANGED <<q, crv, conn, sent>>
   /\ UNCHANGED <<objs, log, cache, initSeen, view, viewSeen, nwrites, nfaults, nbooks, hist>>
+
+\* the server puts an ERROR Status event with a code OTHER than 410 on the watch connection (an internal error it recovers from): the
+\* watcher reports it and keeps watching from where it is -- nothing was observed, nothing is lost.  (On the wire it may share a segment
+\* with the change event written just before it.)
+WNoise ==
+  /\ CanStep /\ nfaults < MaxFaults
+  /\ wpc = "Watching" /\ conn = "open"
+  /\ wire' = Append(wire, [t |-> "NOISE", n |-> "-", o |-> None, rv |-> sent])
+  /\ nfaults' = nfaults + 1 /\ hist' = Append(hist, Step("errevent", "-", None))
+  /\ UNCHANGED <<objs, log, wpc, conn, sent, crv, q, cache, initSeen, view, viewSeen, nwrites, nbooks>>
 
 \* an unrelated write moves the cluster's resourceVersion on; the server tells the watcher with a BOOKMARK
 Bookmark ==
@@ -230,7 +243,7 @@ HDelete ==
 Next ==
   \/ \E n \in Names, sh \in Shapes : ApiCreate(n, sh) \/ ApiModify(n, sh) \/ ApiChurn(n, sh)
   \/ \E n \in Names : ApiDelete(n)
-  \/ WInit \/ WList \/ WListFail \/ WListPart \/ WSend \/ WRecv \/ Bookmark \/ WExpire
+  \/ WInit \/ WList \/ WListFail \/ WListPart \/ WSend \/ WRecv \/ Bookmark \/ WNoise \/ WExpire
   \/ \E how \in {"reset", "eof"} : WDrop(how)
   \/ HInit \/ HInitApply \/ HInitDone \/ HApply \/ HDelete
 Spec == Init /\ [][Next]_vars
